@@ -170,12 +170,29 @@ func (c *FnCtx) callSiteAsserts(fr *Frame, st *State, in ssa.Instruction) {
 		c.opKeys, _ = c.buildOpKeys(fr.fn)
 		valid := map[string]bool{}
 		var names []string
-		for _, k := range c.opKeys {
+		for in, k := range c.opKeys {
+			switch in.(type) {
+			case *ssa.Defer, *ssa.Select:
+				// assertions are not evaluated at these operations: naming one is an error
+				continue
+			}
 			valid[k] = true
 			names = append(names, k)
 		}
 		sort.Strings(names)
 		for k := range fr.contract.Asserts {
+			if strings.HasSuffix(k, "(*)") {
+				// wildcard: every call of that callee, whatever its first argument
+				found := false
+				for _, n := range names {
+					if strings.HasPrefix(n, strings.TrimSuffix(k, "*)")) {
+						found = true
+					}
+				}
+				if found {
+					continue
+				}
+			}
 			if !valid[k] {
 				c.eng.errorf("%s: `assert %s` names no operation of the function (have: %s)", fr.contract.Name, k, strings.Join(names, ", "))
 			}
@@ -186,6 +203,13 @@ func (c *FnCtx) callSiteAsserts(fr *Frame, st *State, in ssa.Instruction) {
 		return
 	}
 	cls := fr.contract.Asserts[key]
+	wildN := 0
+	if i := strings.Index(key, "("); i > 0 {
+		if w := fr.contract.Asserts[key[:i]+"(*)"]; len(w) > 0 {
+			cls = append(append([]Clause{}, cls...), w...)
+			wildN = len(w)
+		}
+	}
 	if len(cls) == 0 {
 		return
 	}
@@ -207,11 +231,33 @@ func (c *FnCtx) callSiteAsserts(fr *Frame, st *State, in ssa.Instruction) {
 		cl := &cls[i]
 		g := c.safeEvalBool(env, cl)
 		lbl := key
+		if i >= len(cls)-wildN {
+			// wildcard assertions are named by the ordinal of the call among the calls of
+			// that callee, not by the name of its first argument
+			lbl = c.wildKey(fr.fn, in, key)
+		}
 		if cl.Label != "" {
 			lbl += ":" + cl.Label
 		}
 		c.addObl("assert", lbl, cl.Props, st, g, cl)
 	}
+}
+
+// wildKey: Callee(*)#n where n counts the calls of Callee in static order.
+func (c *FnCtx) wildKey(fn *ssa.Function, in ssa.Instruction, key string) string {
+	base := key[:strings.Index(key, "(")]
+	n := 0
+	for _, b := range fn.Blocks {
+		for _, x := range b.Instrs {
+			if k := opBaseKey(x); strings.HasPrefix(k, base+"(") {
+				n++
+				if x == in {
+					return fmt.Sprintf("%s(*)#%d", base, n)
+				}
+			}
+		}
+	}
+	return key
 }
 
 func (c *FnCtx) caseKeyOf(fr *Frame, sel *ssa.Select, i int) string {
@@ -313,6 +359,17 @@ func (c *FnCtx) checkOGKeys(ct *FuncContract, og *ogSpec) {
 	}
 	sort.Strings(names)
 	for k := range og.afters {
+		if strings.HasSuffix(k, "(*)") {
+			found := false
+			for _, n := range names {
+				if strings.HasPrefix(n, strings.TrimSuffix(k, "*)")) {
+					found = true
+				}
+			}
+			if found {
+				continue
+			}
+		}
 		if !valid[k] {
 			c.eng.errorf("%s: `after %s` names no atomic operation of the function (have: %s)", ct.Name, k, strings.Join(names, ", "))
 		}
@@ -410,13 +467,20 @@ func (c *FnCtx) ogApplyAfters(fr *Frame, st *State, key string, g Term, results 
 		return
 	}
 	as := c.og.afters[key]
+	if i := strings.Index(key, "("); i > 0 {
+		// wildcard hooks: `after Callee(*): ...` runs after every call of Callee
+		if w := c.og.afters[key[:i]+"(*)"]; len(w) > 0 {
+			as = append(append([]ogAssign{}, as...), w...)
+			c.og.usedKey[key[:i]+"(*)"] = true
+		}
+	}
 	if len(as) == 0 {
 		return
 	}
 	c.og.usedKey[key] = true
 	env := c.specEnv(fr, st)
 	for k, v := range results {
-		env.vars[k] = bound{v, nil}
+		env.vars[k] = bound{v, c.ogResultTypes[k]}
 	}
 	// simultaneous assignment: evaluate all right-hand sides first
 	type upd struct {
@@ -777,10 +841,69 @@ func (c *FnCtx) hookedAll(fr *Frame) {
 		r := &OblResult{Name: c.eng.shortFuncName(fr.fn) + "/hooked:" + nm, Class: "hooked", Func: c.eng.funcKey(fr.fn), Kind: "prove",
 			Clause: "every operation on " + nm + " carries an after-hook", Status: "discharged", Solve: SolveResult{Status: "unsat", Winner: "opkey-scan"}}
 		for _, k := range names {
-			if (strings.Contains(k, "("+nm+")") || strings.HasPrefix(k, nm+"(")) && len(c.og.afters[k]) == 0 {
+			if (strings.Contains(k, "("+nm+")") || strings.HasPrefix(k, nm+"(")) && len(c.og.afters[k]) == 0 && len(c.og.afters[k[:strings.Index(k, "(")]+"(*)"]) == 0 {
 				r.Status = "refuted"
 				r.Solve = SolveResult{Status: "sat", Winner: "opkey-scan", Model: []string{"operation without after-hook: " + k}}
 			}
+		}
+		r.obl = &Obligation{Name: r.Name, Props: props, Kind: "prove", vc: c.vc}
+		c.decided = append(c.decided, r)
+	}
+}
+
+// ownVars: `attr own-var [@PROP] NAME,...`: NAME is a variable declared by the function itself
+// (a parameter or local), not one captured from the enclosing function. For the body of a `go`
+// statement this is the ownership condition "every goroutine has its own NAME": a captured
+// variable would be shared by all the goroutines started from the same enclosing call, and the
+// sequential contracts of the body would say nothing about what the others do to it.
+func (c *FnCtx) ownVars(fr *Frame) {
+	ct := fr.contract
+	if ct == nil {
+		return
+	}
+	spec, ok := ct.Attrs["own-var"]
+	if !ok {
+		return
+	}
+	props := c.props
+	for _, nm := range strings.Fields(strings.ReplaceAll(spec, ",", " ")) {
+		if strings.HasPrefix(nm, "@") {
+			props = []string{strings.TrimPrefix(nm, "@")}
+			continue
+		}
+		r := &OblResult{Name: c.eng.shortFuncName(fr.fn) + "/own-var:" + nm, Class: "own-var", Func: c.eng.funcKey(fr.fn), Kind: "prove",
+			Clause: nm + " is declared by the function itself, not captured from the enclosing one", Status: "discharged", Solve: SolveResult{Status: "unsat", Winner: "ssa-scan"}}
+		declared := false
+		for _, p := range fr.fn.Params {
+			if p.Name() == nm {
+				declared = true
+			}
+		}
+		for _, l := range fr.fn.Locals {
+			if l.Comment == nm {
+				declared = true
+			}
+		}
+		for _, b := range fr.fn.Blocks {
+			for _, in := range b.Instrs {
+				if a, ok := in.(*ssa.Alloc); ok && a.Comment == nm {
+					declared = true
+				}
+			}
+		}
+		captured := false
+		for _, fv := range fr.fn.FreeVars {
+			if fv.Name() == nm {
+				captured = true
+			}
+		}
+		if captured || !declared {
+			r.Status = "refuted"
+			why := "no variable of that name is declared in the function"
+			if captured {
+				why = "the variable is captured from the enclosing function (shared by every goroutine started there)"
+			}
+			r.Solve = SolveResult{Status: "sat", Winner: "ssa-scan", Model: []string{nm + ": " + why}}
 		}
 		r.obl = &Obligation{Name: r.Name, Props: props, Kind: "prove", vc: c.vc}
 		c.decided = append(c.decided, r)
@@ -806,7 +929,7 @@ func (c *FnCtx) assertAll(fr *Frame) {
 		r := &OblResult{Name: c.eng.shortFuncName(fr.fn) + "/assert-all:" + callee, Class: "assert-all", Func: c.eng.funcKey(fr.fn), Kind: "prove",
 			Clause: "every call of " + callee + " carries a call-site assertion", Status: "discharged", Solve: SolveResult{Status: "unsat", Winner: "opkey-scan"}}
 		for _, k := range names {
-			if strings.HasPrefix(k, callee+"(") && len(ct.Asserts[k]) == 0 {
+			if strings.HasPrefix(k, callee+"(") && len(ct.Asserts[k]) == 0 && len(ct.Asserts[callee+"(*)"]) == 0 {
 				r.Status = "refuted"
 				r.Solve = SolveResult{Status: "sat", Winner: "opkey-scan", Model: []string{"call site without assertion: " + k}}
 			}
